@@ -6,22 +6,6 @@ Each is the acceptance, on every model trace, of the monitor that is run on the 
 namespace Afkak.Props.Open.C02
 open Afkak.Consumer Afkak.Monitor
 
-/-- every message offset the environment puts into a fetch reply is a Kafka offset (≥ 0) -/
-def NonNegOffsets (evs : List Ev) : Prop :=
-  ∀ e ∈ evs, match e with
-    | .fetchOk _ r => ∀ m ∈ r.msgs, 0 ≤ m.off
-    | _ => True
-
-/-- Offsets handed to the processor are strictly increasing; the only descents are the ones a
-    `start()` or a firing reset policy permit. -/
-def C02_increasing : Prop :=
-  ∀ (cfg : Cfg) (script : List PEntry) (evs : List Ev), NonNegOffsets evs →
-    C02.increasingOk cfg.reset.isSome (trace cfg script evs) = true
-
-/-- Every delivered message is one a fetch reply carried, with the offset and payload it carried. -/
-def C02_payload : Prop :=
-  ∀ (cfg : Cfg) (script : List PEntry) (evs : List Ev), C02.payloadOk (trace cfg script evs) = true
-
 /-- The environment is a faithful view of a partition log: every successful fetch reply for a request at
     `off` carries consecutive log entries, the first at or after `off` being the first log entry ≥ `off`. -/
 def FaithfulLog (log : List Msg) (cfg : Cfg) (script : List PEntry) (evs : List Ev) : Prop :=
